@@ -1,6 +1,7 @@
 #pragma once
 
 #include <yaclib/fault/inject.hpp>
+#include <yaclib/fault/verif.hpp>
 
 namespace yaclib::detail {
 
@@ -13,15 +14,18 @@ class Mutex : protected Impl {
 #endif
 
   void lock() {
+    YACLIB_VERIF_SYNC(kLock);
     YACLIB_INJECT_FAULT(Impl::lock());
   }
 
   bool try_lock() {
+    YACLIB_VERIF_SYNC(kTryLock);
     YACLIB_INJECT_FAULT(auto r = Impl::try_lock());
     return r;
   }
 
   void unlock() {
+    YACLIB_VERIF_SYNC(kUnlock);
     YACLIB_INJECT_FAULT(Impl::unlock());
   }
 
